@@ -10,7 +10,10 @@ use crate::{
 };
 
 use super::AnalyzeContext;
-use emmylua_parser::{LuaAst, LuaAstNode, LuaChunk, LuaFuncStat, LuaSyntaxKind, LuaVarExpr};
+use emmylua_parser::{
+    LuaAst, LuaAstNode, LuaChunk, LuaForRangeStat, LuaForStat, LuaFuncStat, LuaSyntaxKind,
+    LuaVarExpr,
+};
 use rowan::{TextRange, TextSize, WalkEvent};
 
 use crate::{
@@ -47,6 +50,14 @@ fn walk_node_enter(analyzer: &mut DeclAnalyzer, node: LuaAst) {
         }
         LuaAst::LuaBlock(block) => {
             analyzer.create_scope(block.get_range(), LuaScopeKind::Normal);
+            // Loop variables are local to the loop body: the header expressions (and closures in
+            // them) are evaluated outside their scope, so the variables are declared in the
+            // body's scope rather than in the scope of the whole `for` statement.
+            if let Some(stat) = block.get_parent::<LuaForStat>() {
+                stats::analyze_for_stat(analyzer, stat);
+            } else if let Some(stat) = block.get_parent::<LuaForRangeStat>() {
+                stats::analyze_for_range_stat(analyzer, stat);
+            }
         }
         LuaAst::LuaLocalStat(stat) => {
             analyzer.create_scope(stat.get_range(), LuaScopeKind::LocalOrAssignStat);
@@ -58,11 +69,23 @@ fn walk_node_enter(analyzer: &mut DeclAnalyzer, node: LuaAst) {
         }
         LuaAst::LuaForStat(stat) => {
             analyzer.create_scope(stat.get_range(), LuaScopeKind::Normal);
-            stats::analyze_for_stat(analyzer, stat);
+            // declared when the body block is entered; an empty body has no block node, the
+            // variable then lives in an empty scope of its own so that nothing can see it
+            if stat.get_block().is_none() {
+                let body_pos = stat.get_range().end();
+                analyzer.create_scope(TextRange::empty(body_pos), LuaScopeKind::Normal);
+                stats::analyze_for_stat(analyzer, stat);
+                analyzer.pop_scope();
+            }
         }
         LuaAst::LuaForRangeStat(stat) => {
             analyzer.create_scope(stat.get_range(), LuaScopeKind::ForRange);
-            stats::analyze_for_range_stat(analyzer, stat);
+            if stat.get_block().is_none() {
+                let body_pos = stat.get_range().end();
+                analyzer.create_scope(TextRange::empty(body_pos), LuaScopeKind::Normal);
+                stats::analyze_for_range_stat(analyzer, stat);
+                analyzer.pop_scope();
+            }
         }
         LuaAst::LuaFuncStat(stat) => {
             if is_method_func_stat(&stat).unwrap_or(false) {
